@@ -26,11 +26,17 @@ from harness.kckit import Store, kstr, cstr
 
 INVS = ['MappingViews', 'Containment', 'AtMostOneDefault', 'DefaultWhenPopulated', 'SignerMatchesKey',
         'NoSignerForDeletedKey', 'DeleteCascades', 'RetryAfterFailureOk']
-DEV_BREAKS = {'DevScope': 'MappingViews', 'DevCacheLoc': 'SignerMatchesKey', 'DevDelKey': 'RetryAfterFailureOk'}
+DEV_BREAKS = {'DevScope': 'MappingViews', 'DevCacheLoc': 'SignerMatchesKey', 'DevDelKey': 'RetryAfterFailureOk',
+              'DevKeyId': 'RetryAfterFailureOk', 'DevEmptyObj': 'SignerMatchesKey'}
+# deviations that change an outcome but break no clause of the statement (modelled, not reported)
+DEV_NEUTRAL = ('DevDelCertView', 'DevCertObj')
+FLAGS = {}            # deviations detected on the tree under test (set by run / replay before any step)
 # invariants that cannot hold on histories of a tree that has the deviation (not evaluated on its traces;
 # the defect itself is reported from the implementation: see Run.step)
 DEV_EXCLUDES = {'DevScope': ['MappingViews'], 'DevCacheLoc': ['SignerMatchesKey'],
-                'DevDelKey': ['RetryAfterFailureOk', 'DeleteCascades', 'NoSignerForDeletedKey']}
+                'DevDelKey': ['RetryAfterFailureOk', 'DeleteCascades', 'NoSignerForDeletedKey'],
+                'DevKeyId': ['RetryAfterFailureOk', 'SignerMatchesKey'], 'DevDelCertView': [], 'DevCertObj': [],
+                'DevEmptyObj': ['SignerMatchesKey']}
 NOKEY = ('none', 0)
 NOCERT = (NOKEY, 0)
 PFX = 'C15/KeychainSqlite3/'
@@ -46,7 +52,8 @@ def consts(ids, maxkeys=2, depth=0, maxlevel=0, maxfaults=99, devs=None):
     return {'Ids': ids, 'MaxKeys': maxkeys, 'Depth': depth, 'MaxLevel': maxlevel, 'MaxFaults': maxfaults,
             'DevScope': B(devs.get('DevScope')), 'DevCacheLoc': B(devs.get('DevCacheLoc')),
             'DevDelKey': B(devs.get('DevDelKey')), 'DevKeyId': B(devs.get('DevKeyId')),
-            'DevDelCertView': B(devs.get('DevDelCertView')), 'DevCertObj': B(devs.get('DevCertObj'))}
+            'DevDelCertView': B(devs.get('DevDelCertView')), 'DevCertObj': B(devs.get('DevCertObj')),
+            'DevEmptyObj': B(devs.get('DevEmptyObj'))}
 
 
 def op(name, i='none', k=NOKEY, c=NOCERT, t='none', by='none', loc='none'):
@@ -79,6 +86,19 @@ def detect():
         r = s.call(op('DelKey', k=('A', 1)))
         log = r['log']
         flags['DevDelKey'] = 'tpm.delete_key' in log and 'commit' in log and log.index('tpm.delete_key') > log.index('commit')
+        # new_key with the key_id of a listed key: is the private key rewritten before the call is refused?
+        r = s.call(op('NewKey', i='B', k=('B', 1), t='ec', by='keyid'))
+        flags['DevKeyId'] = r['out'] == 'integrity' and 'tpm.generate_key' in r['log']
+        s.call(op('NewKey', i='A', k=('A', 2), t='ec'))
+        r = s.call(op('GetSigner', c=(('A', 2), 1), by='cert', loc='cert', t='obj'))
+        flags['DevCertObj'] = r['out'] == 'keyerr'
+        r = s.call(op('DelCert', c=(('A', 2), 1), loc='view'))
+        flags['DevDelCertView'] = r['out'] == 'attrerr'
+        # a Key object without certificates as signing argument: KeyError, or the default identity's signer?
+        s.call(op('DelCert', c=(('A', 2), 1)))
+        s.call(op('SetDefId', i='B'))
+        r = s.call(op('GetSigner', k=('A', 2), by='key', loc='cert', t='obj'))
+        flags['DevEmptyObj'] = r['out'] == 'ok'
     finally:
         s.destroy()
     return flags
@@ -116,7 +136,7 @@ class Run:
             return [k for k in self.store.key if k[0] == o['i'] and self.proj is not None and k in self.proj.get('keys', [])]
         return []
 
-    def step(self, act, o=None, n=None):
+    def step(self, act, o=None, n=None, m='call'):
         st = self.store
         if act == 'Reopen':
             st.open()
@@ -125,10 +145,17 @@ class Run:
         else:
             ben = self.beneath(o) if act == 'Fail' else None
             retry_of = self.last_fail if (act == 'Step' and self.last_fail and self.last_fail[0] == okey(o)) else None
-            res = st.call(o, fault=n if act == 'Fail' else None)
-            if res['out'].startswith('error:'):
-                self.find(PFX + '%s/undocumented-exception/%s' % (o['op'], res['out'][6:]),
-                          '%s raised %s: %s' % (ostr(o), res['out'][6:], res.get('detail')))
+            res = st.call(o, fault=n if act == 'Fail' else None, mode=m)
+            exc = res['out'][6:] if res['out'].startswith('error:') else 'AttributeError' if res['out'] == 'attrerr' else None
+            if exc and not (res['out'] == 'attrerr' and o['op'] == 'DelCert' and o['loc'] == 'view' and FLAGS.get('DevDelCertView')):
+                self.find(PFX + '%s/undocumented-exception/%s' % (o['op'], exc),
+                          '%s raised %s: %s' % (ostr(o), exc, res.get('detail')))
+            for sg, w in res.get('issues', ()):
+                self.find(PFX + sg, '%s: %s' % (ostr(o), w))
+            if act == 'Fail' and res.get('fired') and res['out'] != 'fault':
+                self.find(PFX + '%s/failure-swallowed/%s' % (o['op'], m),
+                          '%s: the storage failure injected at fault point %d (%s, %s) did not propagate (outcome %s)'
+                          % (ostr(o), n, res['log'][n - 1] if 0 < n <= len(res['log']) else '?', m, res['out']))
             if o['op'] == 'GetSigner' and res['out'] == 'ok':
                 sel = tuple(o['k']) if o['by'] == 'key' else tuple(o['c'][0]) if o['by'] == 'cert' else None
                 sb = res['signed_by']
@@ -136,9 +163,14 @@ class Run:
                     self.find(PFX + 'GetSigner/signature-verifies-under-%d-keys' % len(sb),
                               '%s: probe signature verifies under %s' % (ostr(o), [kstr(k) for k in sb]))
                 elif sel is not None and sb[0] != sel:
-                    self.find(PFX + 'GetSigner/SignerMatchesKey/cached-signer-of-other-key',
+                    self.find(PFX + 'GetSigner/SignerMatchesKey/%s' % ('object-argument-signer-of-other-key' if o['t'] == 'obj'
+                                                                       else 'cached-signer-of-other-key'),
                               '%s returned a signer that signs with key %s, not with the selected key %s'
                               % (ostr(o), kstr(sb[0]), kstr(sel)))
+                elif o['by'] == 'identity' and sb[0][0] != o['i']:
+                    self.find(PFX + 'GetSigner/SignerMatchesKey/%s' % ('object-argument-signer-of-other-key' if o['t'] == 'obj'
+                                                                       else 'signer-of-other-identity'),
+                              '%s returned a signer that signs with key %s of another identity' % (ostr(o), kstr(sb[0])))
             self.last_fail = (okey(o), ben) if (act == 'Fail' and res.get('fired')) else None
         proj, issues = st.projection()
         self.proj = proj
@@ -181,13 +213,15 @@ def make_steps(g, path_edges, init):
     for act, args, dst in path_edges:
         o = kckit.norm_op(args[0]) if args else None
         n = args[1] if act == 'Fail' else None
+        m = str(args[2]) if act == 'Fail' else 'call'
         exp = None
         if act == 'Step':
             r = obs_table(g.state[src]).get(okey(o))
             exp = {'out': 'ok'} if r is None else {
                 'out': str(r['out']), 'sel': (str(r['sel'][0]), r['sel'][1]), 'got': (str(r['got'][0]), r['got'][1]),
                 'lt': str(r['lt']), 'lc': ((str(r['lc'][0][0]), r['lc'][0][1]), r['lc'][1])}
-        steps.append({'act': act, 'o': o, 'n': n, 'exp': exp, 'proj': kckit.expected_projection(g.state[dst]['st'])})
+        steps.append({'act': act, 'o': o, 'n': n, 'm': m, 'exp': exp, 'txn': bool(g.state[dst]['st']['txn']),
+                      'proj': kckit.expected_projection(g.state[dst]['st'])})
         src = dst
     return steps
 
@@ -280,8 +314,11 @@ def replay_steps(ids, steps):
             if o and o['op'] == 'GetSigner' and o['by'] == 'cert' and run.store.cert_name(o['c']) is None:
                 continue    # a certificate slot of a deleted key that never held a certificate: nothing to ask for
             nf = len(run.findings)
-            res, proj = run.step(act, o, n)
+            res, proj = run.step(act, o, n, s.get('m', 'call'))
             out += [(sg, w, j) for sg, w in run.findings[nf:]]
+            if proj['open'] and 'txn' in s and bool(run.store.kc.conn.in_transaction) != s['txn']:
+                raise tlc.MachineryError('transaction state of the connection (%s) differs from the model after %s'
+                                         % (run.store.kc.conn.in_transaction, ostr(o) if o else act))
             stop = False
             if act == 'Fail':
                 if not res['fired']:
@@ -301,7 +338,7 @@ def replay_steps(ids, steps):
                 elif o['op'] == 'GetSigner' and exp['out'] == 'ok':
                     sb = res['signed_by']
                     want = tuple(exp['got'])
-                    if sb != [want]:
+                    if sb != ([want] if want != NOKEY else []):
                         out.append((PFX + 'GetSigner/signer-key',
                                     '%s: signature verifies under %s, specification says key %s was selected'
                                     % (ostr(o), [kstr(k) for k in sb], kstr(want)), j))
@@ -360,10 +397,11 @@ def record(rng, ids, maxkeys, length):
         last = None
         while len(ev) < length:
             if not proj['open']:
-                act, o, n = 'Reopen', None, None
+                act, o, n, m = 'Reopen', None, None, 'call'
             else:
                 keys, certs = proj['keys'], proj['certs']
                 known_keys = sorted(run.store.key)
+                ext_ok = not run.store.kc.conn.in_transaction      # a second instance could write now
                 cand = []
                 for i in ids:
                     cand.append((1, op('NewIdentity', i=i)))
@@ -374,7 +412,12 @@ def record(rng, ids, maxkeys, length):
                         cand.append((2, op('GetSigner', i=i, by='identity', loc='cert')))
                         if nslot[i] < maxkeys:
                             t = 'rsa' if (nrsa < 3 and rng.random() < 0.15) else 'ec'
-                            cand.append((6, op('NewKey', i=i, k=(i, nslot[i] + 1), t=t)))
+                            cand.append((4, op('NewKey', i=i, k=(i, nslot[i] + 1), t=t)))
+                            cand.append((2, op('NewKey', i=i, k=(i, nslot[i] + 1), t=t, loc='view')))
+                            cand.append((2, op('NewKey', i=i, k=(i, nslot[i] + 1), t='ec', by='keyid')))
+                        cand.append((2, op('GetSigner', i=i, by='identity', loc='cert', t='obj')))
+                        if ext_ok:
+                            cand.append((1, op('DelIdentity', i=i, loc='ext')))
                     elif nslot[i] < maxkeys:
                         cand.append((6, op('TouchIdentity', i=i, k=(i, nslot[i] + 1))))
                 for k in known_keys:
@@ -382,7 +425,12 @@ def record(rng, ids, maxkeys, length):
                         if (k, 2) not in certs:
                             cand.append((4, op('ImportCert', k=k)))
                         cand.append((3, op('SetDefKey', k=k)))
-                        cand.append((3, op('DelKey', k=k)))
+                        cand.append((2, op('DelKey', k=k)))
+                        cand.append((1, op('DelKey', k=k, loc='view')))
+                        cand.append((1, op('NewKey', i=k[0], k=k, t='ec', by='keyid')))      # key_id of a listed key
+                        cand.append((2, op('GetSigner', k=k, by='key', loc='cert', t='obj')))
+                        if ext_ok:
+                            cand.append((1, op('DelKey', k=k, loc='ext')))
                     elif k in proj['tpm']:
                         cand.append((1, op('DelKey', k=k)))
                     for loc in ('cert', 'custom'):
@@ -390,7 +438,11 @@ def record(rng, ids, maxkeys, length):
                 for c in sorted(run.store.cert):
                     if c in certs:
                         cand.append((3, op('SetDefCert', c=c)))
-                        cand.append((3, op('DelCert', c=c)))
+                        cand.append((2, op('DelCert', c=c)))
+                        cand.append((1, op('DelCert', c=c, loc='view')))
+                        cand.append((2, op('GetSigner', c=c, by='cert', loc='cert', t='obj')))
+                        if ext_ok:
+                            cand.append((1, op('DelCert', c=c, loc='ext')))
                     if c in certs or c[0] not in keys:
                         for loc in ('cert', 'custom'):
                             cand.append((2 if c in certs else 1, op('GetSigner', c=c, by='cert', loc=loc)))
@@ -398,7 +450,11 @@ def record(rng, ids, maxkeys, length):
                 cand.append((3, op('Close')))
                 if last is not None and last[0] == 'Fail' and rng.random() < 0.5:
                     o = last[1]
-                    if o['op'] == 'NewKey' or (o['op'] == 'TouchIdentity' and o['i'] not in proj['ids']):
+                    if o['loc'] == 'ext' and not ext_ok:
+                        o = None
+                    elif o['op'] == 'NewKey' and o['by'] == 'keyid':
+                        pass        # an explicit key_id names the same key again: the retry keeps the slot
+                    elif o['op'] == 'NewKey' or (o['op'] == 'TouchIdentity' and o['i'] not in proj['ids']):
                         if nslot[o['i']] >= maxkeys:
                             o = None
                         else:
@@ -415,21 +471,26 @@ def record(rng, ids, maxkeys, length):
                         if x < 0:
                             o = c
                             break
-                n = rng.choice([1, 1, 2, 2, 3, 4, 5, 6, 7, 8, 9, 10]) if (o['op'] != 'Close' and rng.random() < 0.22) else None
+                n = rng.choice([1, 1, 2, 2, 3, 4, 5, 6, 7, 8, 9, 10]) if (o['op'] != 'Close' and o['loc'] != 'ext'
+                                                                           and rng.random() < 0.22) else None
+                m = 'io' if (n and rng.random() < 0.3) else 'call'
                 act = 'Fail' if n else 'Step'
             if o is not None and tuple(o['k']) != NOKEY and o['op'] in ('NewKey', 'TouchIdentity'):
                 nslot[o['i']] = max(nslot[o['i']], o['k'][1])
                 if o['t'] == 'rsa':
                     nrsa += 1
-            res, proj = run.step(act, o, n)
+            res, proj = run.step(act, o, n, m if act == 'Fail' else 'call')
             if act == 'Fail' and not res['fired']:
                 act, n = 'Step', None
                 run.last_fail = None
+            if act == 'Fail' and not res['log'][n - 1].startswith('tpm.'):
+                m = 'call'          # the armed point was a database call: it is the call that failed
             e = {'a': act, 'post': jpost(proj)}
             if o is not None:
                 e['o'] = jop(o)
             if act == 'Fail':
                 e['n'] = n
+                e['m'] = m
             if act == 'Step':
                 r = {'out': res['out'], 'got': jk(NOKEY), 'lt': 'none', 'lc': jc(NOCERT)}
                 if o['op'] == 'GetSigner' and res['out'] == 'ok':
@@ -546,6 +607,8 @@ def run(ctx):
                        'a failing commit leaves the transaction open, as SQLITE_BUSY does',
                        'power-loss consistency of sqlite and the other Tpm back-ends are out of scope']
     flags = detect()
+    FLAGS.clear()
+    FLAGS.update(flags)
     ctx.note('deviations detected on the tree under test: %s' % json.dumps(flags, sort_keys=True))
     ctx.extra['deviation_flags'] = flags
     workers = ctx.pick(4, int(os.environ.get('VERIF_WORKERS', '12')))
@@ -566,7 +629,7 @@ def run(ctx):
                 if r.ok and r.coverage.get(a, (0, 0))[1] == 0:
                     raise tlc.MachineryError('vacuous: action %s never taken' % a)
         # each deviation flag (library as found) must break the invariant that speaks about it
-        for f, depth in (('DevScope', 3), ('DevCacheLoc', 4), ('DevDelKey', 3)):
+        for f, depth in (('DevScope', 3), ('DevCacheLoc', 4), ('DevDelKey', 3), ('DevKeyId', 3), ('DevEmptyObj', 4)):
             cfgp = os.path.join(tlc.BUILD, 'Keychain_dev_%s.cfg' % ctx.tier)
             tlc.write_cfg(cfgp, constants=consts('{"A", "B"}', depth=depth, devs={f: True}), invariants=INVS)
             r = tlc.run('Keychain', cfgp, workers=1, heavy=False)
@@ -591,11 +654,19 @@ def run(ctx):
         cover = {}
         for s, es in g.edges.items():
             for act, args, dst in es:
-                key = act if act == 'Reopen' else ('%s %s' % (act, args[0]['op']) + (' #%d' % args[1] if act == 'Fail' else ''))
+                key = act if act == 'Reopen' else ('%s %s' % (act, args[0]['op']) + (' #%d%s' % (args[1], '/io' if args[2] == 'io' else '') if act == 'Fail' else ''))
                 cover[key] = cover.get(key, 0) + 1
         ops = ['NewIdentity', 'TouchIdentity', 'NewKey', 'ImportCert', 'SetDefId', 'SetDefKey', 'SetDefCert', 'DelCert',
                'DelKey', 'DelIdentity', 'GetSigner', 'Close']
         missing = [o for o in ops if 'Step ' + o not in cover] + [o for o in ops[:-1] if 'Fail %s #1' % o not in cover]
+        variants = {'view': 0, 'ext': 0, 'obj': 0, 'keyid': 0}
+        for s_, es in g.edges.items():
+            for act, args, dst in es:
+                if act == 'Step':
+                    for f_ in ('loc', 't', 'by'):
+                        if str(args[0][f_]) in variants:
+                            variants[str(args[0][f_])] += 1
+        missing += [v for v, c in variants.items() if c == 0] + ([] if any(k.endswith('/io') for k in cover) else ['Fail .. /io'])
         if missing or 'Reopen' not in cover:
             raise tlc.MachineryError('vacuous: graph has no transition for %s' % missing)
         ctx.extra['graph_transition_classes'] = cover
@@ -616,7 +687,7 @@ def run(ctx):
         for steps, (nst, done, fnd) in zip(all_steps, results):
             ctx.traces += 1
             ctx.evaluations += len(steps)
-            acts = [(s['act'] + ' ' + ostr(s['o']) + (' #%d' % s['n'] if s['n'] else '')) if s['o'] else s['act'] for s in steps]
+            acts = [(s['act'] + ' ' + ostr(s['o']) + (' #%d%s' % (s['n'], '/io' if s['m'] == 'io' else '') if s['n'] else '')) if s['o'] else s['act'] for s in steps]
             if any(s['act'] == 'Fail' or (s['o'] and s['o']['op'] in ('DelKey', 'DelIdentity', 'DelCert', 'Close')) for s in steps):
                 ctx.nt(['B', acts])
             ctx.sample({'kind': 'B-path', 'actions': acts}, limit=3)
@@ -677,6 +748,8 @@ def replay(ctx, path):
     with open(path) as f:
         obj = json.load(f)
     kind = obj.get('kind')
+    FLAGS.clear()
+    FLAGS.update(detect())
     if kind == 'path':
         steps = obj['steps']
         for s in steps:
@@ -697,14 +770,14 @@ def replay(ctx, path):
         return 1 if hit else 0
     if kind == 'trace':
         MAXK['n'] = obj['rec']['cfg'].get('maxkeys', 6)
-        r, rejected, invs = judge(ctx, [obj['rec']], obj.get('flags') or detect(), 'c15-replay')
+        r, rejected, invs = judge(ctx, [obj['rec']], dict(FLAGS), 'c15-replay')
         print('rejected' if rejected else 'accepted by KeychainTrace', rejected, 'violated=%s' % r.violated)
         if obj.get('sig'):
             # implementation-level finding: re-run the recorded calls on the real code
             run = Run(obj['rec']['cfg']['ids'])
             try:
                 for e in obj['rec']['ev']:
-                    run.step(e['a'], kckit_op(e['o']) if 'o' in e else None, e.get('n'))
+                    run.step(e['a'], kckit_op(e['o']) if 'o' in e else None, e.get('n'), e.get('m', 'call'))
                 run.finish()
             finally:
                 run.close()
